@@ -70,7 +70,10 @@ def stage2(mdir, mid, what):
     try:
         if not scratch_repo(w, os.path.join(mdir, mid + ".diff")):
             return {"verdict": "patch-failed"}
-        subprocess.run(["rsync", "-a", "--exclude", ".git", "--exclude", "replays", "--exclude", "evidence/*.json", V + "/", w + "/verif/"], check=True)
+        # (exit code 24 = files vanished while copying: build outputs of a concurrently running lake; harmless)
+        rc = subprocess.run(["rsync", "-a", "--exclude", ".git", "--exclude", "replays", "--exclude", "evidence/*.json", V + "/", w + "/verif/"]).returncode
+        if rc not in (0, 24):
+            return {"verdict": "copy-failed"}
         subprocess.run("cd %s && git archive HEAD | tar -x -C %s/verif" % (V, w), shell=True, check=True)
         others = subprocess.run("cd %s && git ls-files --others --exclude-standard -- harness lean/ParsleyVerif" % V, shell=True, capture_output=True, text=True).stdout.split("\n")
         for f in others:
@@ -131,7 +134,11 @@ def main():
         futs = {ex.submit(stage2, mdir, i, what[i]): i for i in surv if (i, 2) not in done}
         for f in concurrent.futures.as_completed(futs):
             i = futs[f]
-            r = f.result()
+            try:
+                r = f.result()
+            except Exception as e:  # a scratch-copy problem must not end the sweep
+                print(i, "stage 2 raised", e, flush=True)
+                continue
             r.update({"id": i, "stage": 2, "what": what[i]})
             rec(r)
             print(i, what[i], "->", r["verdict"], r.get("by", ""), flush=True)
